@@ -57,7 +57,12 @@ type CompleteMultipartUploadRequest struct {
 }
 
 func (c CompleteMultipartUploadRequest) partsAreSorted() bool {
-	return sort.IntsAreSorted(c.partIDs())
+	// partIDs() returns a sorted copy, which would make this vacuously true:
+	inParts := make([]int, 0, len(c.Parts))
+	for _, inputPart := range c.Parts {
+		inParts = append(inParts, inputPart.PartNumber)
+	}
+	return sort.IntsAreSorted(inParts)
 }
 
 func (c CompleteMultipartUploadRequest) partIDs() []int {
